@@ -117,7 +117,8 @@ def pick(candidates: Any, site: str, default: Any) -> Any:
     code's own deterministic `default`."""
     if scheduler is None:
         return default
-    return scheduler(site, list(candidates))
+    x = scheduler(site, list(candidates))
+    return default if x is None else x
 
 
 def trace(site: str, **fields: Any) -> None:
